@@ -11,7 +11,7 @@ from ..condgen import CondGen
 from ..rulegen import RuleGen
 from ..specgen import normalise_cond, normalise_path, nested_leaves, path_leaves
 from ..describe import Inert0
-from ..ruleterms import Tags, obs_rule_test
+from ..ruleterms import Tags, obs_rule_test, RuleT
 from ..terms import valida, Bin
 from ..pathterms import PathT
 from .c09 import IMPORTS
@@ -50,6 +50,22 @@ def obs_validate(s, doc):
     return (vd.is_valid, vd.num_failures, [obs_rule_test(t) for t in vd.rule_tests], vd.cast_data)
 
 
+def corpus_schemas():
+    """Regression corpus: rule paths with parts whose key / index conditions LOOK like a plain key (so that the path could be
+    abbreviated to a bare primitive) but are on the key's length or type."""
+    from ..pathterms import Prim, MapT, MolT, lit, cnd
+    from ..terms import Leaf
+    out = []
+    doc = {"rec": {"a": "3", "bb": "x", "c": 1}, "lst": {"k": ["5", "6"]}}
+    for part in (MolT(index=lit(1), key=cnd(Leaf("KeyLength", "equal_to", [1]))), MapT(key=cnd(Leaf("KeyLength", "equal_to", [2.0]))),
+                 MapT(key=cnd(Leaf("KeyLength", "equal_to", [1]))), MapT(key=cnd(Leaf("KeyDataType", "equal_to", [str]))),
+                 MolT(index=lit(0), key=cnd(Leaf("KeyLength", "equal_to", [0])))):
+        for cast in ([], ["int"]):
+            out.append((doc, [RuleT(PathT([Prim("rec"), part]), Leaf("ValueDataType", "equal_to", [int]), cast),
+                              RuleT(PathT([Prim("lst"), Prim("k"), part]), Leaf("Value", "truthy", []), cast)]))
+    return out
+
+
 def run(tier, seed, model_ok, spec_ok, replay=None):
     g = Gen(seed)
     rg = RuleGen(CondGen(g))
@@ -57,9 +73,12 @@ def run(tier, seed, model_ok, spec_ok, replay=None):
     n = 400 if tier == "quick" else 12000
     cases, direct = [], []
     dist = Counter()
-    for i in range(n):
+    corpus = corpus_schemas()
+    for i in range(-len(corpus), n):
         doc = cast_doc(g, 3) if i % 2 else g.document(4, 4)
         rts = [rt for rt in (rg.rule(doc, cast_p=0.5, path_args_p=0.2) for _ in range(g.r.choice([1, 1, 2, 3]))) if in_fragment(g, rt)]
+        if i < 0:
+            doc, rts = corpus[i]
         if not rts:
             continue
         if g.r.random() < 0.15:
